@@ -338,8 +338,11 @@ class Ctx:
         }
         if not ev["coverage"].get("samples"):
             ev["coverage"]["samples"] = ["(no sample recorded)"]
-        (VERIF / "evidence").mkdir(exist_ok=True)
-        (VERIF / "evidence" / (self.prop + ".json")).write_text(json.dumps(ev, indent=1, default=str))
+        # evidence/<id>.json always describes /repo itself; a run against another tree (VERIF_REPO: seeded changes, sensitivity
+        # experiments) writes its account under .work/ and leaves the committed evidence alone
+        evdir = VERIF / "evidence" if REPO == Path("/repo") else WORKROOT / "evidence-other-tree"
+        evdir.mkdir(parents=True, exist_ok=True)
+        (evdir / (self.prop + ".json")).write_text(json.dumps(ev, indent=1, default=str))
         print("%s: %s  (%d violation(s), %d known finding(s), %.1fs, tier %s, seed %s)" % (
             self.prop, "FAIL" if self.violations else "ok", len(self.violations), len(self.known), wall, self.tier, self.seed))
         return 1 if self.violations else 0
